@@ -46,9 +46,18 @@ def showKeys (s : St) (ks : List Nat) : String :=
 
 def sortNat (l : List Nat) : List Nat := (l.toArray.qsort (· < ·)).toList
 
+/-- records with the same expiration time have no specified order among themselves: each run of equal times is
+    printed sorted by key -/
+def canonIdx (s : St) (l : List Nat) : List Nat :=
+  let (done, cur) := l.foldl (fun (acc : List Nat × List Nat) k =>
+    match acc.2 with
+    | [] => (acc.1, [k])
+    | c :: _ => if (s.recs c).exp == (s.recs k).exp then (acc.1, acc.2 ++ [k]) else (acc.1 ++ sortNat acc.2, [k])) ([], [])
+  done ++ sortNat cur
+
 def stateLine (s : St) : String :=
   let present := sortNat (s.born.filter (fun k => (s.recs k).present))
-  s!"idx=[{",".intercalate (s.index.map keyName)}] keys={showKeys s present}"
+  s!"idx=[{",".intercalate ((canonIdx s s.index).map keyName)}] keys={showKeys s present}"
 
 def doStep (d : DSt) (a : Act) : Option (St × Bool) := step d.cfg d.sp a
 
